@@ -245,6 +245,16 @@ def blake2_ops():
 def keccak_ops(sha3=False):
     ops = {}
 
+    def shake(x, c):
+        # the module-level SHAKE128/SHAKE256 functions (checked: they are one-shot hashes too)
+        if "shake" not in x.info:
+            x.info["shake"] = [x.pb.obj({"kind": "attr", "path": "crysp.sha.SHAKE128"}),
+                               x.pb.obj({"kind": "attr", "path": "crysp.sha.SHAKE256"})]
+        f = x.rng.choice(x.info["shake"])
+        d = x.opt("shake_d", lambda: x.rng.choice([8, 64, 224, 256, 256, 384, 512, 1088 + 64]))
+        x.call(c, "__call__", [B(x.msg()), d], tag="shake", obj=f)
+    ops["shake"] = (CHK, shake)
+
     def call(x, c):
         x.call(c, "__call__", [B(x.msg())], tag="call")
     ops["call"] = (CHK, call)
@@ -977,6 +987,23 @@ def mk_crc(rng, pb, px):
     return o, {"pool": pool, "aux": aux}
 
 
+_PEEK = ["H", "size", "blocksize", "outlen", "padmethod", "padmethod.bitcnt", "len", "pad", "pad.padflag", "K", "S", "counter",
+         "r", "c", "C", "G", "key", "p", "dround", "IV", "Nb", "No", "lsh_code", "count", "dacc", "keys", "Nr", "Nk", "wsize",
+         "salt", "rounds", "h", "tran", "checksum", "Lvalue", "E1", "Ts", "version", "w", "b", "n"]
+
+
+def _with_peek(ops):
+    """reading public attributes, repr() and str() between calls must not change anything"""
+    def peek(x, c):
+        for _ in range(x.rng.randint(1, 3)):
+            if x.rng.random() < 0.25:
+                x.pb.step(c, k="repr", obj=x.obj, cls=HIST, tag="peek", kind=x.kind)
+            else:
+                x.pb.step(c, k="get", obj=x.obj, path=x.rng.choice(_PEEK), cls=HIST, tag="peek", kind=x.kind)
+    ops["peek"] = (HIST, peek)
+    return ops
+
+
 KINDS = {
     "SHA1": (4, mk_sha1, _with_resume(hash_ops(), "iter_part")),
     "SHA2": (5, mk_sha2, _with_resume(hash_ops(), "iter_part")),
@@ -1008,6 +1035,9 @@ KINDS = {
     "Chacha": (3, mk_chacha, _with_resume(stream_ops(), "ks_part")),
     "crc": (4, mk_crc, crc_ops()),
 }
+for _k in list(KINDS):
+    if _k != "crc":
+        _with_peek(KINDS[_k][2])
 SINGLETONS = {"blake_singleton", "blake2_singleton", "keccak_singleton", "tlsh_singleton", "crc"}
 _KNAMES = sorted(KINDS)
 _KNAMES_NS = [k for k in sorted(KINDS) if k not in SINGLETONS]
